@@ -446,7 +446,7 @@ func cliDiagnostics(meta *common.Meta, dir string, pkgs []*fw.Pkg, ems map[strin
 				}
 				ln = ol
 			}
-			res[id] = append(res[id], wkey{ln, col, m[4]})
+			res[id] = append(res[id], wkey{ln, col, m[4], ""})
 		}
 	}
 	return res
@@ -606,6 +606,7 @@ type wkey struct {
 	line int // original line (0: padding)
 	col  int
 	text string
+	fix  string // replacement bytes of the suggested fix (in-process runs only): part of what a diagnostic IS
 }
 
 func realPos(f *fw.File, off int) (line, col int) {
@@ -627,12 +628,12 @@ func multiset(ks []wkey) map[wkey]int {
 func diffSets(a, b map[wkey]int) (onlyA, onlyB []string) {
 	for k, n := range a {
 		if b[k] < n {
-			onlyA = append(onlyA, fmt.Sprintf("L%d:%d %s", k.line, k.col, k.text))
+			onlyA = append(onlyA, strings.TrimSpace(fmt.Sprintf("L%d:%d %s %s", k.line, k.col, k.text, k.fix)))
 		}
 	}
 	for k, n := range b {
 		if a[k] < n {
-			onlyB = append(onlyB, fmt.Sprintf("L%d:%d %s", k.line, k.col, k.text))
+			onlyB = append(onlyB, strings.TrimSpace(fmt.Sprintf("L%d:%d %s %s", k.line, k.col, k.text, k.fix)))
 		}
 	}
 	sort.Strings(onlyA)
@@ -763,10 +764,14 @@ func Run(tier string, seed int64, outDir string) *common.Meta {
 				}
 				l = ol
 			}
-			ks = append(ks, wkey{l, c, w.Text})
+			fix := ""
+			if w.HasFix {
+				fix = fmt.Sprintf("[%d bytes replaced by] %s", w.FixLen, w.Fix)
+			}
+			ks = append(ks, wkey{l, c, w.Text, fix})
 		}
 		if o.Panic != "" {
-			ks = append(ks, wkey{-1, -1, "panic: " + o.Panic})
+			ks = append(ks, wkey{-1, -1, "panic: " + o.Panic, ""})
 		}
 		return
 	}
